@@ -36,6 +36,10 @@ enum Pos {
     Phi(usize, usize),
     /// element (i, j) of the derivative matrix with respect to parameter k
     Dphi(usize, usize, usize),
+    /// every observation multiplied by the value (mode starts)
+    YAll,
+    /// starting parameter k MULTIPLIED by the value (mode starts)
+    A0Mul(usize),
 }
 
 #[derive(Debug, Clone)]
@@ -67,6 +71,7 @@ fn fam_parse(v: &Value) -> Family {
             "Exp3" => Family::Exp3,
             "GaussDecayOff" => Family::GaussDecayOff,
             "OLeary" => Family::OLeary,
+            o if o.starts_with("ExpN") => Family::ExpN(o[4..].parse().unwrap()),
             o => panic!("family {}", o),
         };
     }
@@ -86,6 +91,8 @@ fn pos_json(p: &Pos) -> Value {
         Pos::A0(k) => json!(["a0", k]),
         Pos::Set(k) => json!(["set", k]),
         Pos::Eps => json!(["eps", 0]),
+        Pos::YAll => json!(["yall", 0]),
+        Pos::A0Mul(k) => json!(["a0mul", k]),
         Pos::Phi(i, j) => json!(["phi", i, j]),
         Pos::Dphi(k, i, j) => json!(["dphi", k, i, j]),
     }
@@ -100,6 +107,8 @@ fn pos_parse(v: &Value) -> Pos {
         "a0" => Pos::A0(i),
         "set" => Pos::Set(i),
         "eps" => Pos::Eps,
+        "yall" => Pos::YAll,
+        "a0mul" => Pos::A0Mul(i),
         "phi" => Pos::Phi(i, a[2].as_u64().unwrap() as usize),
         "dphi" => Pos::Dphi(i, a[2].as_u64().unwrap() as usize, a[3].as_u64().unwrap() as usize),
         o => panic!("pos {}", o),
@@ -194,6 +203,8 @@ fn run_case<T: Sc>(ctx: &Ctx, b: &Base, subs: &[(Pos, f64)]) {
                 set_alpha = Some(a);
             }
             Pos::Eps => eps = Some(*v),
+            Pos::YAll => y *= *v,
+            Pos::A0Mul(k) => a0[k] = a_true[k] * *v,
             Pos::Phi(i, j) => tamper.push((None, i, j, *v)),
             Pos::Dphi(k, i, j) => tamper.push((Some(k), i, j, *v)),
         }
@@ -321,7 +332,9 @@ fn bases(thorough: bool) -> Vec<Base> {
     let mut v = vec![];
     let fams = vec![Family::GenProd { m: 1, p: 1, inc: default_inc(1, 1) }, Family::Exp1Off, Family::Exp2Off, Family::OLeary, Family::ExpN(4)];
     for (fi, fam) in fams.iter().enumerate() {
-        let ns: Vec<usize> = if thorough { vec![1, 2, 3, 4, 8] } else { vec![1, 2, 3, 4] };
+        // the four-exponential family is always run with 8 samples as well: its fits wander to negative decay
+        // constants, i.e. finite basis matrices with an extreme dynamic range
+        let ns: Vec<usize> = if thorough || fi == 4 { vec![1, 2, 3, 4, 8] } else { vec![1, 2, 3, 4] };
         for &n in &ns {
             for s in [1usize, 2] {
                 for f32_ in [false, true] {
@@ -332,7 +345,7 @@ fn bases(thorough: bool) -> Vec<Base> {
                         if fi == 4 && (n < 4 || s == 2 || prov == Prov::Built) {
                             continue;
                         }
-                        if !thorough && (fi == 3 || (s == 2 && f32_) || (par && n != 3)) {
+                        if !thorough && (fi == 3 || (s == 2 && f32_) || (par && n != 3 && fi != 4)) {
                             continue;
                         }
                         v.push(Base { fam: fam.clone(), n, s, prov, par, weighted, f32_, yzero: false, xshift: false });
@@ -359,6 +372,68 @@ fn dispatch(ctx: &Ctx, b: &Base, subs: &[(Pos, f64)]) {
     }
 }
 
+/// "every trial step the optimizer may take from any start": finite inputs only - every combination of
+/// multipliers of the generating parameters as the start (wrong sign, wrong order of magnitude), observations
+/// of ordinary, tiny and huge scale, few samples; build, fit and fit_with_statistics must return.
+fn mode_starts(ctx: &Arc<Ctx>, thorough: bool) {
+    let fams = vec![Family::Exp1Off, Family::Exp2Off, Family::GaussDecayOff, Family::OLeary, Family::Exp3, Family::ExpN(4)];
+    let mults: Vec<f64> = if thorough { vec![-10.0, -1.0, -0.1, 0.01, 0.1, 0.5, 1.0, 2.0, 10.0, 100.0] } else { vec![-1.0, 0.1, 1.0, 10.0] };
+    let mut idx = 0u64;
+    for fam in &fams {
+        let p = fam.p();
+        let mp = fam.m() + p;
+        let mut ns = vec![mp, 8.max(mp + 1), 16];
+        if thorough {
+            ns.push(33);
+            ns.push(fam.m());
+        }
+        ns.sort();
+        ns.dedup();
+        for &n in &ns {
+            for f32_ in [false, true] {
+                for (prov, par, weighted) in [(Prov::Hand, false, false), (Prov::Hand, true, true), (Prov::Built, false, true), (Prov::Built, true, false)] {
+                    if !fam.can_build() && prov == Prov::Built {
+                        continue;
+                    }
+                    if !thorough && (prov == Prov::Built) != (n == 16) {
+                        continue;
+                    }
+                    let yscales: Vec<f64> = if f32_ { vec![1.0, 1e-25, 1e25, 1e36] } else { vec![1.0, 1e-200, 1e150, 1e300] };
+                    for (yi, ys) in yscales.iter().enumerate() {
+                        if !thorough && yi == 1 {
+                            continue;
+                        }
+                        let b = Base { fam: fam.clone(), n, s: 1, prov, par, weighted, f32_, yzero: false, xshift: false };
+                        let total = (mults.len() as u64).pow(p as u32);
+                        for mut k in 0..total {
+                            let mine = ctx.args.mine(idx);
+                            idx += 1;
+                            if !mine {
+                                continue;
+                            }
+                            let mut subs: Vec<(Pos, f64)> = vec![];
+                            for q in 0..p {
+                                subs.push((Pos::A0Mul(q), mults[(k % mults.len() as u64) as usize]));
+                                k /= mults.len() as u64;
+                            }
+                            if *ys != 1.0 {
+                                subs.push((Pos::YAll, *ys));
+                            }
+                            ctx.begin_desc(idx, case_json(&b, &subs));
+                            dispatch(ctx, &b, &subs);
+                            ctx.with(|s| s.inc("wild_start_fits"));
+                        }
+                    }
+                }
+            }
+        }
+    }
+    ctx.with(|s| {
+        let n = s.counters.get("wild_start_fits").copied().unwrap_or(0);
+        s.add("distinct_nontrivial", n);
+    });
+}
+
 fn main() {
     engine_main("nonfinite", |ctx: Arc<Ctx>| {
         if let Some(r) = &ctx.args.replay {
@@ -369,6 +444,10 @@ fn main() {
             return;
         }
         let thorough = ctx.args.thorough();
+        if ctx.args.extra.get("mode").map(|m| m == "starts").unwrap_or(false) {
+            mode_starts(&ctx, thorough);
+            return;
+        }
         if ctx.args.shard == 0 {
             odd_builder_models(&ctx);
         }
